@@ -13,7 +13,7 @@ import os, json, re
 import vlib, trace
 from props import c08c14_steps as steps
 
-VF = ["Once/OnceModel.v", "Once/OnceProofs.v"]
+VF = ["Once/OnceModel.v", "Once/OnceProofs.v", "Once/OnceMachine.v", "Once/OnceMachineProofs.v"]
 POINTS = ["once.read", "once.cas", "once.done", "once.wait.read"]
 
 
@@ -141,7 +141,9 @@ def oracle(case, res):
         if len(w) == 5 and w[0] == "#" and w[1] == "expect":
             expect[(int(w[2]), int(w[3]))] = int(w[4])
     onces = [n for n, (k, _) in objs.items() if k == "once"]
-    stats = {"calls": 0, "later_calls": 0, "waited_calls": 0, "inits": 0}
+    stats = {"calls": 0, "later_calls": 0, "waited_calls": 0, "inits": 0, "init_susp_polled": 0, "polls_during_init": 0}
+    susp = {}        # control -> the initialiser has yielded / blocked / created / joined inside its routine
+    counted = set()
     begun = {o: [] for o in onces}       # threads that began the init routine
     ended = {o: [] for o in onces}
     done = {o: False for o in onces}     # the completing store has been executed
@@ -152,6 +154,14 @@ def oracle(case, res):
     seen2 = set()
     for e in res["events"]:
         T = e.actor
+        if e.kind == "C" and e.words[0] in ("create", "join"):
+            for o in begun:
+                if begun[o] == [T] and ended[o] == []:
+                    susp[o] = True
+        if e.kind == "P" and e.words[0] == "blockq.enq" and e.ctx == "c":
+            for o in begun:
+                if begun[o] == [T] and ended[o] == []:
+                    susp[o] = True
         if e.kind == "C":
             st = stack.setdefault(T, [])
             if not st:
@@ -208,6 +218,9 @@ def oracle(case, res):
                     if begun[o] != [T]:
                         return "init routine of %s ended by t%d but begun by %s" % (o, T, begun[o]), stats
             elif e.words[0] == "yield.enter":
+                for o in begun:
+                    if begun[o] == [T] and ended[o] == []:
+                        susp[o] = True
                 for (o, W), c in open_once.items():
                     # yields of the init script itself do not count
                     if W == T and not (begun[o] == [T] and ended[o] == []):
@@ -220,6 +233,11 @@ def oracle(case, res):
             elif o in seen2:
                 return ("the control %s does not stay completed: state=%s after it had been 2 (%s); every later "
                         "call is stuck" % (o, stv, e.raw)), stats
+            if e.words[0] == "once.wait.read" and len(begun[o]) == 1 and not ended[o] and begun[o] != [T]:
+                stats["polls_during_init"] += 1
+                if susp.get(o) and o not in counted:
+                    counted.add(o)
+                    stats["init_susp_polled"] += 1
             if e.words[0] == "once.cas":
                 c = open_once.get((o, T))
                 if c:
@@ -234,6 +252,12 @@ def oracle(case, res):
     if res["verdict"] is None:
         return "run produced no verdict (the library crashed?) rc=%s: %s" % (res["rc"], res.get("stderr", "")[-200:]), stats
     if not res["verdict"].startswith("DONE"):
+        for o in onces:
+            if len(begun[o]) == 1 and not ended[o]:
+                return ("verdict %s: the init routine of %s (begun by t%d) never completes - it %s and never gets a worker "
+                        "again while the waiters keep polling (%d polls): the waiters' yields do not give way to it"
+                        % (res["verdict"], o, begun[o][0], "was suspended" if susp.get(o) else "stopped",
+                           stats["polls_during_init"])), stats
         return "verdict %s (a caller never returned)" % res["verdict"], stats
     for o in onces:
         if ncalls[o] and (len(begun[o]) != 1 or len(ended[o]) != 1):
@@ -360,9 +384,72 @@ def sweep_cases(r, reps=1):
     return cases
 
 
+def oneworker_cases(r, n):
+    """ONE worker, exactly 2 or 3 waiters and an initialiser whose routine yields / blocks / creates and joins
+    (the situation of theorem C14_one_worker_terminates), plus 0..2 short threads that are no callers and finish or
+    yield in between: the waiters' polls go round-robin through the run queue and must reach the initialiser.
+    One worker is deterministic, so one run per program; verdict DONE is required (LIMIT = the round-robin starves
+    the initialiser)."""
+    cases = []
+    for i in range(n):
+        nwait = 2 + (i % 2)
+        kind = ["yield", "yield", "block", "createjoin"][(i // 2) % 4]
+        nextra = [1, 0, 2, 1, 0][i % 5] if i >= 4 else [1, 1, 0, 2][i]
+        objs = ["m0 mutex", "o0 once 0", "cnt0 var 0", "flag0 var 0"]
+        threads, expect = {0: []}, []
+        callers = list(range(1, nwait + 1))             # waiters (the initialiser is whoever calls first)
+        init_is_main = (i % 3 != 2)
+        ini = 0 if init_is_main else nwait + 1
+        extras = list(range(nwait + 2, nwait + 2 + nextra))
+        helper = nwait + 2 + nextra if kind == "block" else None
+        cj = nwait + 3 + nextra
+        if kind == "yield":
+            script = ["yield"] * (1 + i % 3) + ["add cnt0 1"] + ["yield"] * (i % 2)
+        elif kind == "block":
+            script = ["lock m0", "add cnt0 1", "unlock m0", "yield"]
+        else:
+            script = ["create %d pf" % cj, "join %d" % cj]
+            threads[cj] = ["yield", "add cnt0 1"]
+        script.append("set flag0 1")
+
+        def body(t):
+            threads[t] = ["once o0", "get flag0"]
+            expect.append((t, 1, 1))
+        for t in callers:
+            body(t)
+        if not init_is_main:
+            body(ini)
+        for j, t in enumerate(extras):
+            threads[t] = [["nop"], ["yield"], ["nop", "nop"]][(i + j) % 3]
+        if helper is not None:
+            threads[helper] = ["lock m0", "yield", "yield", "unlock m0"]
+        # creation order: everything is created parent-first by main (so that main keeps the worker), the
+        # extras on top or in between; then main calls (if it is the initialiser) or joins
+        order = ([helper] if helper is not None else []) + ([ini] if not init_is_main else []) + callers
+        for j, t in enumerate(extras):
+            pos = [len(order), 0, len(order) // 2][(i + j) % 3]
+            order.insert(pos, t)
+        if i % 4 == 3:
+            order.reverse()
+        cf_first = (not init_is_main) and i % 5 == 4
+        for j, t in enumerate(order):
+            threads[0].append("create %d%s" % (t, "" if (cf_first and t == ini) else " pf"))
+        if init_is_main:
+            threads[0] += ["once o0", "get flag0"]
+            expect.append((0, len(threads[0]) - 1, 1))
+        for t in order:
+            threads[0].append("join %d" % t)
+        threads[0] += ["once o0", "get cnt0"]
+        expect.append((0, len(threads[0]) - 1, 1))
+        p = {"objs": objs, "threads": threads, "scripts": [script], "expect": expect, "kinds": [kind], "ncallers": nwait + 1}
+        cases.append({"family": "oneworker:%s/%dw/%dx" % (kind, nwait, nextra), "workers": 1, "ncallers": nwait + 1,
+                      "text": text_of(p, 1, 1 + i, 30)})
+    return cases
+
+
 def gen_cases(ctx, n):
     r = ctx.rng
-    cases = sweep_cases(r, 1 if n < 1000 else 12)
+    cases = oneworker_cases(r, 40 if n < 1000 else 200) + sweep_cases(r, 1 if n < 1000 else 12)
     for i in range(n):
         workers = [1, 2, 2, 3, 4][i % 5]
         p = gen_program(r, workers)
@@ -441,7 +528,8 @@ def search_oracle_failure(ctx, exe, drv, case, tries):
 
 def summarize(results):
     hist, spins, dist, verd = {}, 0, {}, {}
-    st = {"calls": 0, "later_calls": 0, "waited_calls": 0, "inits": 0}
+    st = {"calls": 0, "later_calls": 0, "waited_calls": 0, "inits": 0, "init_susp_polled": 0, "polls_during_init": 0,
+          "oneworker_done": 0, "oneworker_susp_polled": 0}
     callers = {}
     for o in results:
         for e in o["res"]["events"]:
@@ -456,6 +544,9 @@ def summarize(results):
         verd[v] = verd.get(v, 0) + 1
         for x in st:
             st[x] += o["stats"].get(x, 0)
+        if o["case"]["family"].startswith("oneworker") and v == "DONE":
+            st["oneworker_done"] += 1
+            st["oneworker_susp_polled"] += o["stats"].get("init_susp_polled", 0)
     return hist, spins, dist, verd, st, callers
 
 
@@ -477,7 +568,11 @@ def run(ctx):
         "input_distribution": dist, "concurrent_callers_distribution": callers, "verdicts": verd,
         "point_histogram": hist, "once.wait.spin": spins, "once_calls": st["calls"],
         "calls_after_completion": st["later_calls"], "calls_that_waited": st["waited_calls"],
-        "init_routine_executions": st["inits"]}
+        "init_routine_executions": st["inits"],
+        "controls_whose_init_was_suspended_while_a_waiter_polled": st["init_susp_polled"],
+        "polls_while_init_in_progress": st["polls_during_init"],
+        "one_worker_programs_DONE": st["oneworker_done"],
+        "one_worker_controls_init_suspended_while_polled": st["oneworker_susp_polled"]}
     for i in (0, len(results) // 2, len(results) - 1):
         o = results[i]
         ctx.cov["samples"].append({"case": o["case"]["text"], "verdict": o["res"]["verdict"], "model": o["model"],
@@ -511,10 +606,13 @@ def run(ctx):
                           found=False)
     else:
         missing = [p for p in POINTS if not hist.get(p)]
-        if missing or not spins or not st["later_calls"] or not st["waited_calls"]:
-            ctx.violation("coverage", "never exercised on this run: %s%s%s%s" % (
+        if missing or not spins or not st["later_calls"] or not st["waited_calls"] or not st["init_susp_polled"] \
+                or not st["oneworker_susp_polled"]:
+            ctx.violation("coverage", "never exercised on this run: %s%s%s%s%s%s" % (
                 ", ".join(missing), " once.wait.spin" if not spins else "", " later call" if not st["later_calls"] else "",
-                " waiting call" if not st["waited_calls"] else ""),
+                " waiting call" if not st["waited_calls"] else "",
+                " init routine suspended (yield/block/create) while a waiter polled" if not st["init_susp_polled"] else "",
+                " the same on one worker" if not st["oneworker_susp_polled"] else ""),
                 {"theorem_or_correspondence": "coverage of the POINT ids of the once routines", "histogram": hist}, found=False)
     if struct_bad and not bad_oracle:
         hit = None
